@@ -95,7 +95,7 @@ func main() {
 }
 
 func c13(c *Ctx) {
-	c.Rule = "fault enumeration in a child process built with the delay overlay: scenarios close-idle / close-early (before the join completes) / close-queued (3..7 commands, the terminal goes after 1-2 were written) / close-outstanding / rst-outstanding / close-afterresp / close-timer (close within +-4 ms of the timer expiry) / notmo (no timeout, released by the disconnect) / mixed / burst / flood-close (30..400 heartbeats in one segment, then close or RST after 1-3 replies or 0.1-8 ms) / default0 (OverTimeDuration 0, silent terminal), 1..8 callers, timeouts 60-600 ms, under 6 delay configurations (seeded Gosched only at 30 / 60 % of the instrumented sites, sleeps up to 0.2 / 0.5 / 1 / 3 ms at 30 / 20 / 15 / 12 %) and, for each of the instrumented sites in turn, with that site alone always delaying 2.5 ms; a case is non-trivial when at least one call was made and the terminal went away; distinct = distinct recorded histories"
+	c.Rule = "fault enumeration in a child process built with the delay overlay: scenarios close-idle / close-early (before the join completes) / close-queued (3..7 commands, the terminal goes after 1-2 were written) / close-outstanding / rst-outstanding / close-afterresp / close-timer (close within +-4 ms of the timer expiry) / notmo (no timeout, released by the disconnect) / mixed / burst / flood-close (30..400 heartbeats in one segment, then close or RST after 1-3 replies or 0.1-8 ms) / reissue-close (0..8 0x8003 frames in one write plus single ones, close or RST 0.05-8 ms later) / stall-close (a transfer stalled for 5 s: generated re-request, then close) / default0 (OverTimeDuration 0, silent terminal), 1..8 callers, timeouts 60-600 ms, under 6 delay configurations (seeded Gosched only at 30 / 60 % of the instrumented sites, sleeps up to 0.2 / 0.5 / 1 / 3 ms at 30 / 20 / 15 / 12 %) and, for each of the instrumented sites in turn, with that site alone always delaying 2.5 ms; a case is non-trivial when at least one call was made and the terminal went away; distinct = distinct recorded histories"
 	for _, o := range oldSchedules {
 		c.Do(o[0], false)
 	}
@@ -105,7 +105,7 @@ func c13(c *Ctx) {
 		return
 	}
 	kinds := []string{"close-idle", "close-early", "close-queued", "close-queued", "close-outstanding", "rst-outstanding",
-		"close-afterresp", "close-timer", "close-timer", "notmo", "mixed", "burst", "flood-close", "flood-close"}
+		"close-afterresp", "close-timer", "close-timer", "notmo", "mixed", "burst", "flood-close", "flood-close", "reissue-close", "reissue-close"}
 	cfgs := []DelayCfg{{Seed: int(c.Seed), US: 0, P: 30}, {Seed: int(c.Seed) + 1, US: 200, P: 30}, {Seed: int(c.Seed) + 2, US: 1000, P: 15},
 		{Seed: int(c.Seed) + 3, US: 3000, P: 12}, {Seed: int(c.Seed) + 4, US: 0, P: 60}, {Seed: int(c.Seed) + 5, US: 500, P: 20}}
 	per := 16
@@ -132,6 +132,7 @@ func c13(c *Ctx) {
 			for j := 0; j < 2; j++ {
 				jobs = append(jobs, fmt.Sprintf("scn default0 %d", c.Rng.Int63n(90000000)))
 			}
+			jobs = append(jobs, fmt.Sprintf("scn stall-close %d", c.Rng.Int63n(90000000))) // 5 s: generated re-request, then close
 		}
 		results = append(results, &br{d: d, jobs: jobs})
 	}
@@ -140,7 +141,8 @@ func c13(c *Ctx) {
 	sites := DelaySites()
 	c.Extra["delay_sites"] = len(sites)
 	tk := []string{"close-timer", "close-timer", "close-timer", "close-timer", "close-timer", "close-timer",
-		"close-outstanding", "close-queued", "close-queued", "close-afterresp", "rst-outstanding", "notmo", "flood-close", "flood-close"}
+		"close-outstanding", "close-queued", "close-queued", "close-afterresp", "rst-outstanding", "notmo", "flood-close", "flood-close",
+		"reissue-close", "reissue-close"}
 	reps := 1
 	if !c.Quick() {
 		reps = 24
@@ -154,6 +156,9 @@ func c13(c *Ctx) {
 			results = append(results, &br{d: DelayCfg{Seed: int(c.Seed), US: 2500, P: 100, Site: st.ID + 1}, jobs: jobs})
 			c.Count("targeted:" + st.Func + "/" + st.What)
 		}
+	}
+	if !c.Quick() { // the witness of finding blocked-write, in a server of its own (it wedges the session manager)
+		results = append(results, &br{d: DelayCfg{Seed: int(c.Seed), US: 0, P: 0}, jobs: []string{fmt.Sprintf("scn noread %d", c.Rng.Int63n(90000000))}})
 	}
 	limit := 70 * time.Second
 	if !c.Quick() {
